@@ -284,6 +284,8 @@ func c05RefStruct(st *universe.Struct, m map[string]any) *canon.Node {
 				if fl, err := num.Float64(); err == nil && fl != 0 {
 					if f.Kind == universe.KFloat {
 						c = &canon.Node{K: "num", S: strconv.FormatFloat(fl, 'g', -1, 64)}
+					} else if iv, err := strconv.ParseInt(num.String(), 10, 64); err == nil {
+						c = &canon.Node{K: "num", S: strconv.FormatInt(iv, 10)} // integer literals are read exactly
 					} else {
 						c = &canon.Node{K: "num", S: strconv.FormatInt(int64(fl), 10)}
 					}
@@ -455,6 +457,10 @@ func c05Run(c *engine.Ctx) {
 				named(universe.Recipe{Struct: s, TypeName: s.SpecificName(), Sets: []universe.Set{{Field: f, Shape: universe.WrapForField(f, sh)}}})
 			}
 		}
+	}
+	universe.Scale(named)
+	for i := range universe.Structs {
+		universe.SharedIdentity(&universe.Structs[i], named)
 	}
 	if !c.Quick() {
 		for i := range universe.Structs {
